@@ -71,6 +71,29 @@ theorem c16_invalid_update_rejected (wall : Nat) (s s' : State) (r : Resp) (auth
     obtain ⟨_, ha, _, hv, rfl, _⟩ := h
     exact ⟨hv, ha, rfl⟩
 
+/-- **A governance proposal is all or nothing.**  When it fails — its signer is not the gov module account, or any
+one of its messages fails, e.g. an invalid parameter update after valid ones — the state is exactly the state
+before: no parameter of an earlier message of the same proposal stays behind. -/
+theorem c16_failed_proposal_changes_nothing (wall : Nat) (s : State) (msgs : List Msg) :
+    (govExecAll wall s msgs).2 = false → (govExecAll wall s msgs).1 = s := by
+  unfold govExecAll
+  split
+  · split
+    · intro h; cases h
+    · intro _; rfl
+  · intro _; rfl
+
+theorem c16_proposal_with_failing_message_fails (wall : Nat) (s : State) (pre : List Msg) (m : Msg) (post : List Msg)
+    (s1 : State) (rs : List Resp) (hpre : runMsgs wall s pre = .ok (s1, rs)) (e : Err) (hm : handle wall s1 m = .error e) :
+    govExecAll wall s (pre ++ m :: post) = (s, false) := by
+  have hrun : runMsgs wall s (pre ++ m :: post) = .error e := by
+    unfold runMsgs at hpre ⊢
+    rw [List.foldlM_append, hpre]
+    simp only [bind, Except.bind, List.foldlM_cons, hm]
+  unfold govExecAll
+  rw [hrun]
+  split <;> rfl
+
 /-- After a successful update every fee check, limit check, quorum tally and fee split is the formula
 instantiated at the new values and only the new values: the model reads the parameters from the
 state at each use (no cache), so the functions below depend on the state only through `params`. -/
